@@ -6,7 +6,9 @@ ENTRY = dict(
         prop_file="Properties/C07.v",
         corr_files=["Corr/C07Corr.v"],
         theorems=["c07_only_markers", "c07_erase_markers", "c07_metadata", "c07_accounting", "c07_feasible",
-                  "c07_fails_only_if_infeasible", "c07_export_never_crashes", "c07_terminates",
+                  "c07_fails_only_if_infeasible", "c07_succeeds_when_feasible", "c07_cut_positions",
+                  "c07_export_never_crashes", "c07_terminates",
+                  "c07_pop_is_minimum", "c07_pop_contract_determines", "c07_queue_is_multiset", "c07_queue_seqs_distinct",
                   "c07_compression_invisible", "c07_facts"],
         allowed_axioms=[],
         facts=["cf_left_wire_mult", "cf_right_wire_mult", "cf_both_wires_mult", "cf_gate_cut_uses_gate_gamma",
@@ -21,8 +23,12 @@ ENTRY = dict(
                    "according to a permitted plan (CutWire immediately before the gate on its input qubit, cut gates wrapped), the "
                    "metadata lists exactly the marker positions/kinds, the overhead is the product kappa^2 / 16-per-marker over that "
                    "plan, every component of the independent wire-segment graph of the output has at most W segments; a ValueError "
-                   "(supported two-qubit gates, valid settings, all four cut-kind combinations) only if no permitted plan is feasible; never any other "
-                   "exception (all assertions incl. those of export_cuts unreachable); explicit fuel bound. Closed under the global "
+                   "(supported two-qubit gates, valid settings, all four cut-kind combinations) only if no permitted plan is feasible; conversely it RETURNS "
+                   "whenever some permitted plan is feasible (c07_succeeds_when_feasible, any max_gamma/max_backjumps/tape); the position of "
+                   "every input instruction and of every marker in the output is given in closed form (running insertion offset) and "
+                   "metadata['cuts'] is exactly that list (c07_cut_positions); never any other "
+                   "exception (all assertions incl. those of export_cuts unreachable); explicit fuel bound; the priority queue enters "
+                   "only through the contract 'pop returns a minimum and removes it' (proved sufficient). Closed under the global "
                    "context. The model is run against the implementation on >450 (quick) / >7000 (thorough) generated cases per run, "
                    "comparing the output circuit, metadata, final and greedy search state, SearchStats, random-tape consumption and "
                    "the SimpleGateList after export_cuts.",
@@ -36,7 +42,13 @@ ENTRY = dict(
             "(facts obligation); a cost tuple (gamma_UB, inf) is modelled by gamma_UB",
             "path compression in find_wire_root is left out of the state; c07_compression_invisible proves it unobservable",
             "oracles: the numpy Generator of the priority queue is a tape nat -> Q recorded by wrapping numpy.random.default_rng "
-            "(theorems hold for every tape); heapq is modelled as extraction of the least (cost,-depth,rand,seq) entry",
+            "(theorems hold for every tape)",
+            "heapq: the model keeps the queue as a list and pops the least (cost,-depth,rand,seq) entry. The former blanket assumption "
+            "'the list model is adequate for heapq' is now reduced to the precise contract 'heappop returns an entry with no smaller "
+            "entry in the heap under the tuple order and removes exactly it, heappush adds exactly the entry': c07_pop_is_minimum "
+            "(the model's pop satisfies it), c07_pop_contract_determines (with pairwise different seq numbers - an invariant, "
+            "c07_queue_seqs_distinct - the contract determines the popped entry and the remaining multiset) and "
+            "c07_queue_is_multiset (the search depends on the queue only as a multiset) are proved; heapq itself is not modelled",
             "gate kappas and the canonical wrapped form of a gate (TwoQubitQPDGate.from_instruction) are inputs supplied by the "
             "harness from QPDBasis; theorems about the segment graph assume the wrapped form is a TwoQubitQPDGate (gtab_ok)",
             "max_wire_cuts_gamma is modelled exactly over Q (least k with 2^(k+1) >= g+1); binary64 corner cases of "
